@@ -87,10 +87,14 @@ def run_c18(it):
             for (k, minlen, buffer, restart) in it["calls"]:
                 first = True
                 for m in lc.kbest_matches(k=k, minlen=minlen, buffer=buffer, restart=restart):
-                    matches.append({"path": dtwx.enc_path(m.path), "restart": bool(restart and first)})
+                    # fresh: nothing is masked when this match is searched (first match of the object, or first
+                    # match of a call that restarts); with minlen <= 1 no candidate is discarded for its length
+                    matches.append({"path": dtwx.enc_path(m.path), "restart": bool(restart and first),
+                                    "fresh": bool(first and (restart or not matches)), "minlen": int(minlen)})
                     first = False
             hists.append({"route": name, "matches": matches, "self": bool(variant.get("self"))})
         except Exception as exc:
             hists.append({"route": name + ":raised:" + type(exc).__name__ + ":" + str(exc)[:50].replace('"', "'"),
-                          "matches": [{"path": [[-3, -3]], "restart": True}], "self": bool(variant.get("self"))})
+                          "matches": [{"path": [[-3, -3]], "restart": True, "fresh": False, "minlen": 9}],
+                          "self": bool(variant.get("self"))})
     return {"id": it["id"], "mats": mats, "hists": hists, "routes": [x["route"] for x in mats + hists]}
